@@ -666,7 +666,30 @@ func (env *Env) unchangedWorld(except []string) Term {
 	}
 	var out []Term
 	i := Term{"i!uw", SInt}
+	for _, w := range wildRecs(st.heap) {
+		if _, before := old[wildKeyPrefix+w.seq]; before {
+			continue
+		}
+		for _, pat := range w.pats {
+			if strings.HasPrefix(pat, "ghost.") || strings.HasPrefix(pat, "cell:") || strings.HasPrefix(pat, "lock.") {
+				continue
+			}
+			skip := false
+			for _, e := range except {
+				if pat == e || strings.HasPrefix(pat, e) {
+					skip = true
+				}
+			}
+			if !skip {
+				// a callee with a wildcard frame ran: arrays nobody looked at may have changed
+				return TFalse
+			}
+		}
+	}
 	for _, name := range sortedKeys(st.heap) {
+		if strings.HasPrefix(name, wildKeyPrefix) {
+			continue
+		}
 		if strings.HasPrefix(name, "ghost.") || strings.HasPrefix(name, "cell:") || strings.HasPrefix(name, "lock.") {
 			continue
 		}
